@@ -412,11 +412,14 @@ DIRECTED = [
     ((1, 1, 0, 1), "E0 T0 L0 L0 S0 S0 S0 S0 P0 L0 L0 L0 C0 C0 C0 K K K W0"),
     # (c) flag read, then shutdown() sets the flag and notifies, then the waker is registered
     ((1, 1, 0, 1), "L0 S0 S0 S0 S0 L0 L0 L0 L0 L0 L0 K K K W0"),
-    ((2, 1, 0, 1), "L0 L1 L1 L1 L1 S0 S0 S0 S0 L0 L0 L0 L0 L0 L0 L1 L1 L1 L1 L1 L1 L1 K K K W0"),
+    ((2, 1, 0, 1), "L0 L1 L1 L1 L1 S0 S0 S0 S0 L0 L0 L0 L0 L1 L1 L1 L1 L1 L1 K K K W0"),
     # zero connections, two callers, one hook
     ((1, 2, 1, 1), "H0 S0 S1 S0 S1 S0 S1 S0 S1 L0 L0 L0 L0 L0 K K H0 H0 K K W0"),
+    # two hooks: the completion task must wait for the second acknowledgement
+    ((1, 1, 2, 1), "H0 H1 S0 S0 S0 S0 L0 L0 L0 L0 L0 K K H0 H0 K H1 H1 K K W0"),
+    ((1, 1, 2, 0), "H0 H1 S0 S0 S0 S0 L0 L0 L0 L0 L0 K K H1 H0 H1 K H0 K K"),
     # the last connection ends while the flag is being set
-    ((1, 1, 0, 1), "E0 T0 L0 L0 C0 S0 C0 S0 S0 S0 C0 C0 L0 L0 L0 L0 L0 K K K W0"),
+    ((1, 1, 0, 1), "E0 T0 L0 L0 C0 S0 C0 S0 S0 S0 L0 L0 L0 L0 L0 K K K W0"),
 ]
 
 
@@ -443,7 +446,12 @@ def generate(rng, tier):
     cases = []
     # ---- corpus / directed shapes first --------------------------------------------------------
     for n, text in DIRECTED:
-        cases.append(rep(REPAIRED, n, parse_sched(text), "directed"))
+        sched = parse_sched(text)
+        st = init(REPAIRED, *n)
+        for lb in sched:      # generator self-test: a directed schedule is enabled to its end (in the mirror; the model is asked next)
+            st = step(REPAIRED, st, lb)
+            assert st is not None, ("directed schedule not enabled", text, lb)
+        cases.append(rep(REPAIRED, n, sched, "directed"))
     # ---- malformed --------------------------------------------------------------------------------
     for x in [xn(3), xl(xn(1)), xl(xl(xn(1), xn(1)), xl(xn(1)), xl()),
               xl(xl(xbool(1), xbool(1), xbool(1)), xl(xn(99), xn(1), xn(0), xn(0)), xl())]:
@@ -458,7 +466,8 @@ def generate(rng, tier):
     for _ in range(1000 if quick else 20000):
         cases.append(meth(random_ops(rng, rng.randrange(1, 24 if quick else 60)), "methods-random"))
     # ---- schedules from the reachable graph of the model ------------------------------------------------
-    shapes = [(1, 1, 0, 1), (1, 1, 0, 0), (2, 1, 0, 1), (1, 2, 0, 1), (1, 1, 1, 1), (2, 2, 1, 1), (2, 1, 1, 0), (1, 0, 0, 1)]
+    shapes = [(1, 1, 0, 1), (1, 1, 0, 0), (2, 1, 0, 1), (1, 2, 0, 1), (1, 1, 1, 1), (2, 2, 1, 1), (2, 1, 1, 0), (1, 0, 0, 1),
+              (1, 1, 2, 1), (2, 1, 2, 1), (3, 1, 0, 1)]
     nbfs = 40 if quick else 900
     nrand = 160 if quick else 2500
     for j in range(nbfs):
@@ -632,8 +641,8 @@ RULE = ("(1) method level: random sequences (1-60 operations) of add_connection,
         "(register), acknowledge hook h, yield on a real shutdown::Manager (current-thread runtime; the completion task runs between "
         "operations) against the model run with whole-method steps; after every operation (count, flag, wait() resolved?, per hook "
         "registered/signalled/acknowledged, initiate channel sent) is compared; the property's clauses are evaluated on the observed "
-        "sequence (oracle). (2) schedule replay: schedules of the Coq transition system (1-2 listeners, 0-3 connections, 0-2 shutdown "
-        "callers, 0-1 hooks, 0-1 waiters, handler returns or panics) are replayed on a real server (RunConfig::execute, IPv4 loopback "
+        "sequence (oracle). (2) schedule replay: schedules of the Coq transition system (1-3 listeners, 0-3 connections, 0-2 shutdown "
+        "callers, 0-2 hooks, 0-1 waiters, handler returns or panics) are replayed on a real server (RunConfig::execute, IPv4 loopback "
         "ports, HTTP/1 clients) built with the cargo feature verif-hooks: every thread/task of the server blocks at each hook point "
         "until the controller releases it, so the interleaving of the accesses to flag, count, completion flag, waker slots and channels "
         "is the scheduled one. Schedules = the three windows found in 0.6.3 and their variants, paths to distinct states of the model's "
